@@ -122,7 +122,7 @@ m("M70", [], "lexer/lexer.go", 'strings.TrimRight(comment.String(), " \\t\\r")',
 m("M71", ["C15"], "ast/code_writer_comments.go", "\t\t} else if i == 0 {\n\t\t\tif isComment {", "\t\t} else if i == 0 {\n\t\t\tif !isComment {", note="trailing-comment rule inverted")
 m("M90", ["C02", "C01"], "parser/parser_functions.go", "if p.CurrentToken.Type == token.INCREMENT || p.CurrentToken.Type == token.DECREMENT {", "if _, isPostfix := left.(*ast.PostfixExpression); isPostfix {", note="nested postfix update followed by a line-leading ( or [ continues again (fix 008663d undone)")
 m("M91", ["C06", "C08"], "lexer/lexer.go", 'strings.TrimRight(comment.String(), " \\t\\r")', 'strings.TrimRight(comment.String(), " \\t")', note="CR of a CRLF line end stays in the comment text (fix aa81149 undone)")
-m("M92", ["C06"], "lexer/lexer.go", 'strings.TrimRight(comment.String(), " \\t\\r")', 'strings.TrimRight(comment.String(), " \\r")', note="trailing tabs stay in the comment text (fix 54c3eeb undone)")
+m("M92", ["C06"], "lexer/lexer.go", 'strings.TrimRight(comment.String(), " \\t\\r")', 'strings.TrimRight(comment.String(), " \\r")', expect="either", note="trailing tabs stay in the comment text (fix 54c3eeb undone): harmless since fix 6de87b4 - a comment whose text is trimmed away at the end of the output is re-read as a comment without text, which is kept")
 m("M93", ["C15", "C06"], "lexer/lexer.go", 'text = " "', 'text = ""', note="comment without text recorded as a line break again (fix 6de87b4 undone)")
 m("M89", ["C15"], "ast/ast.go", "\tcw.WriteLeadingComments(p.EOF.LeadingComments)\n", "", note="comments before end of input dropped again")
 # ---- context (C16)
